@@ -147,6 +147,20 @@ def gen_cases(tier, seed):
                 s['seed'] = rng.randrange(1 << 30)
                 s['plan'] = {'faults': [{'at': k, 'phase': ph, 'kind': kind, 'tag': 'FAULT-legacy'}]}
                 cases.append(s)
+    # ... and the same with the sibling part requests held in flight (their responses parked until the process is at rest) while one
+    # part fails: the abort has to wait for them
+    for conc in (2, 3, 4):
+        for size in (20, 27, 35):
+            nparts = (size + 7) // 8
+            for part in range(1, nparts + 1):
+                for ph, kind in (('before', 'exc'), ('after', 'client4xx')):
+                    s = copy.deepcopy(lbase)
+                    s['config']['max_concurrency'] = conc
+                    s['transfers'][0]['size'] = size
+                    s['seed'] = rng.randrange(1 << 30)
+                    s['plan'] = {'faults': [{'at': f't0/s3:UploadPart:{part}#0', 'phase': ph, 'kind': kind, 'tag': 'FAULT-legacy'}],
+                                 'gate': {'match': [f't0/s3:UploadPart:{q}#0' for q in range(1, nparts + 1) if q != part], 'phase': 'after', 'policy': 'seeded'}}
+                    cases.append(s)
     rng.shuffle(cases)
     return cases
 
